@@ -3,6 +3,12 @@
 import json, sys
 
 CLAIMED = {
+ "C01": ("3/C01", "seeded search over random dataflow DAGs, each executed under 2-4 schedules (linear extensions, swapped commutative operands, bystander graphs, early drops, GC); every gradient compared with an independent functional reference tape (exact for integer-valued exact-op runs) and across schedules",
+         "trusts: the tape's hand-written VJPs (self-validated against central finite differences on a 1/8 sample; disagreement = HARNESS-ERROR); points where the derivative does not exist are detected by the tape and excluded; float tolerance policy of DESIGN 2.6"),
+ "C04": ("3/C04", "seeded search over epoch histories of view creation / non-view ops / in-place updates (setitem, augmented assignment, ufunc out=/where=, .shape=) on any member of a view family, compared after every statement with NumPy shadow arrays executing the same statements (values, dtype, shape, pairwise memory sharing, .base, object identity, constant flag); failing statements, GC pre-emption and id reuse in separate lanes",
+         "trusts: NumPy as the reference; only families created entirely within the current epoch are judged (the statement's scope); Python scalars are treated as 0-d arrays (dtype promotion is C03's subject); empty arrays are not judged for sharing"),
+ "C05": ("3/C05", "seeded search over epoch histories with reads before/after every mutation; after backward every gradient is compared with the cotangent of the equivalent purely functional program (versions + gather/scatter tape), values with the tape's forward values",
+         "trusts: the tape (self-validated against finite differences on a sample); non-differentiable points detected and excluded; tolerance policy of DESIGN 2.6 (bit-exact on certified-exact runs)"),
  "C08": ("3/C08", "seeded search over histories of ops/views/out=/in-place/failing ops/backward/clear/reference drops (incl. drops into reference cycles, GC pre-emption inside MyGrad functions, simulated id reuse, injected kernel failures) judged after every event by a 3-valued lock model built on weakref ground truth",
          "trusts: NumPy flag semantics; the public-attribute walk (creator/variables/base/data) to find live ops; arrays the simulated caller holds are the only ones judged; known findings listed in known_findings.json are reported as KNOWN-FINDING"),
 }
